@@ -40,6 +40,15 @@ def run(ctx: Ctx) -> None:
                        "dual operations, the location parameter is the file that is opened)")
     n9 = codec_duals(ctx, "C08.R9", "C08.R9")
     rep.floor("C08.R9", n9, 4)
+    from .c03 import store_paths_lexical
+    rep.rule("C08.R10", "as C03.R8: store paths are made from their text, never resolved against the file system (`Path('/q/../t')` is not '/t': paths that differ in "
+                        "their segments stay different, and '..' reaches the store's refusal)")
+    n10 = store_paths_lexical(ctx, "C08.R10")
+    rep.floor("C08.R10", n10, 1)
+    rep.rule("C08.R11", "a committed path resolves to the key it was committed with, also when it was committed before with another key: DBFS sync_paths skips the write of "
+                        "the redirect record only after comparing the recorded key with the new one")
+    n11 = S.record_rewritten_unless_current(ctx, "C08.R11")
+    rep.floor("C08.R11", n11, 1)
     rep.rule("C08.R5", "store_blob returns normally only after the commit marker is published (a stored key is reported present)")
     S.store_always_publishes(ctx, v, "C08.R5")
     rep.rule("C08.R6", "committing a path removes / replaces nothing but that path's own entry; the cache wrapper answers path queries from the store")
